@@ -372,8 +372,12 @@ REPLY_POOL = [
 ]
 
 
-def run_session(cmds, replies, submit_at, cuts):
-    """cmds: [(bytes-or-str, percb)], replies: [(code, parts)], submit_at: offsets, cuts: stream offsets"""
+def run_session(cmds, replies, submit_at, cuts, children=None):
+    """cmds: [(bytes-or-str, percb)], replies: [(code, parts)], submit_at: offsets, cuts: stream offsets.
+    children: {i: [j, ...]}: command j (index into cmds, with submit_at[j] = None) is submitted
+    re-entrantly from inside command i's result callback (or first per-line callback)."""
+    children = children or {}
+    children = {int(k): v for k, v in children.items()}
     from twin import control_session as CS
     proto, t = CS.make_proto()
     stream = b''
@@ -384,7 +388,7 @@ def run_session(cmds, replies, submit_at, cuts):
     starts = [0] + ends[:-1]
     viol = []
     hist = {'cmds': [(c if isinstance(c, str) else c.decode('latin-1'), p) for c, p in cmds],
-            'replies': replies, 'submit_at': list(submit_at), 'cuts': list(cuts)}
+            'replies': replies, 'submit_at': list(submit_at), 'cuts': list(cuts), 'children': children}
 
     def bad(clause, what):
         viol.append({'key': 'C01:%s' % clause, 'clause': clause, 'what': what, 'history': hist})
@@ -399,18 +403,30 @@ def run_session(cmds, replies, submit_at, cuts):
         orig_write(data)
     t.write = write
 
+    spawned = set()
+
+    def spawn(i):
+        if i not in spawned:
+            spawned.add(i)
+            for j in children.get(i, []):
+                submit(j)
+
     def submit(i):
         c, percb = cmds[i]
-        cb = (lambda line, i=i: lines_seen[i].append(line)) if percb else None
+
+        def linecb(line, i=i):
+            lines_seen[i].append(line)
+            spawn(i)
         try:
-            d = proto.queue_command(c, cb) if percb else proto.queue_command(c)
+            d = proto.queue_command(c, linecb) if percb else proto.queue_command(c)
         except Exception as e:
             bad('submission_never_raises', 'command %d: %r' % (i, e))
             return
         recs[i] = CS.Recorder(d)
-    bounds = sorted(set(list(cuts) + list(submit_at) + [len(stream)]))
+        d.addBoth(lambda v, i=i: spawn(i))
+    bounds = sorted(set(list(cuts) + [x for x in submit_at if x is not None] + [len(stream)]))
     pos = 0
-    todo = sorted(range(len(cmds)), key=lambda i: (submit_at[i], i))
+    todo = sorted([i for i in range(len(cmds)) if submit_at[i] is not None], key=lambda i: (submit_at[i], i))
     for b in [0] + bounds:
         if b > pos:
             delivered[0] = b      # bytes up to b are being delivered while the call runs
@@ -524,6 +540,26 @@ def twin(tier, seed):
                 for _ in range(k)]
         reps = [rnd.choice(REPLY_POOL) for _ in range(k)]
         sessions.append((cmds, reps))
+    # re-entrant submissions: a command's callback submits further commands while others are queued
+    for _ in range(40 if tier == 'quick' else 400):
+        k = rnd.randint(2, maxk)
+        cmds = [('CMD%d' % i, rnd.random() < 0.3) for i in range(k)]
+        reps = [rnd.choice(REPLY_POOL) for _ in range(k)]
+        nchild = rnd.randint(1, 2)
+        parent = rnd.randrange(k)
+        kids = []
+        for j in range(nchild):
+            cmds.append(('CHILD%d' % j, rnd.random() < 0.3))
+            reps.append(rnd.choice(REPLY_POOL))
+            kids.append(len(cmds) - 1)
+        stream = b''.join(CS.encode_reply(c, p) for c, p in reps)
+        for mode in ('whole', 'lines', 'bytes'):
+            for chunks in CS.segmentations(stream, mode, rnd, 1):
+                cuts = list(itertools.accumulate(len(c) for c in chunks))[:-1]
+                v = run_session(cmds, reps, [0] * k + [None] * nchild, cuts, {parent: kids})
+                evaluations += 1
+                distinct.add((tuple(cmds), tuple(map(repr, reps)), 'reentrant', parent, tuple(cuts)))
+                violations.extend(v)
     for cmds, reps in sessions:
         stream = b''.join(CS.encode_reply(c, p) for c, p in reps)
         ends = list(itertools.accumulate(len(CS.encode_reply(c, p)) for c, p in reps))
@@ -614,7 +650,7 @@ def replay_file(doc):
             return {'reproduced': False}
         cmds = [(c, p) for c, p in h['cmds']]
         reps = [(c, [tuple(x if not isinstance(x, list) else x for x in p) for p in parts]) for c, parts in h['replies']]
-        v = run_session(cmds, reps, h['submit_at'], h['cuts'])
+        v = run_session(cmds, reps, h['submit_at'], h['cuts'], h.get('children'))
         return {'reproduced': bool(v), 'native_violations': v[:3]}
     unit, name = doc['obligation'].split('::')
     return replay(unit, name, doc['model'])
